@@ -55,8 +55,9 @@ NoZeroTicket == \A k \in DOMAIN StackTickets(stack) : StackTickets(stack)[k][4] 
 RECURSIVE SumFor(_, _)
 SumFor(tks, key) == IF tks = <<>> THEN 0 ELSE (IF <<Head(tks)[2], Head(tks)[3]>> = key THEN Head(tks)[4] ELSE 0) + SumFor(Tail(tks), key)
 Keys(tks) == {<<tks[k][2], tks[k][3]>> : k \in DOMAIN tks}
+MintsTicket(i) == i[1] = "TICKET" \/ (i[1] = "SEQ" /\ \E k \in DOMAIN i[2] : i[2][k][1] = "TICKET")
 \* the total per (ticketer, contents) grows only by TICKET and shrinks only by DROP-like instructions
 TicketConservation ==
   [][ \A key \in Keys(StackTickets(stack')) \cup Keys(StackTickets(stack)) :
-        SumFor(StackTickets(stack'), key) > SumFor(StackTickets(stack), key) => hist'[Len(hist')][1] = "TICKET" ]_vars
+        SumFor(StackTickets(stack'), key) > SumFor(StackTickets(stack), key) => MintsTicket(hist'[Len(hist')]) ]_vars
 =============================================================================
